@@ -906,6 +906,10 @@ func indexAssign(dst, src Object, selectors []Object) error {
 			}
 			return err
 		}
+		if next == nil {
+			// as OpIndex does: a nil value from IndexGet means undefined
+			next = UndefinedValue
+		}
 		dst = next
 	}
 
